@@ -812,4 +812,121 @@ theorem verify_fixed_same_answer' (L : LayerView) (slack : Nat) (h : Heap)
     simp only [Slice.region] at bf bw
     rw [bf, bw]
 
+/-! ## The modelled programs stay inside their buffers -/
+
+/-- Every load and store of a log lies inside a buffer of the heap. -/
+def LogInBounds (l : Log) (h : Heap) : Prop :=
+  ∀ a ∈ l, ∀ r, a.touches = some r → r.inBounds h
+
+theorem Heap.size_ext_last (sh pv : Mem) (x : Bytes) :
+    (Heap.mk sh (pv ++ [x])).size (.priv pv.length) = x.length := by
+  simp [Heap.size, Mem.size, List.getD_eq_getElem?_getD]
+
+theorem inBounds_ext (sh pv : Mem) (x : Bytes) (r : Region) (hr : r.inBounds ⟨sh, pv⟩)
+    (hb : (Heap.mk sh pv).has r.buf) : r.inBounds ⟨sh, pv ++ [x]⟩ := by
+  unfold Region.inBounds at *
+  rw [Heap.size_ext sh pv x r.buf hb]; exact hr
+
+/-- The repaired verification never leaves its buffers: every access of its log is in bounds of the
+    final heap (so the clipping of the model's total read/write functions is not exercised). -/
+theorem verify_fixed_inBounds (L : LayerView) (slack : Nat) (h : Heap) (hp : L.payload.len ≠ 0)
+    (hc : L.contents.region.inBounds h) (hb : L.payload.region.inBounds h)
+    (hcb : h.has L.contents.buf) (hpb : h.has L.payload.buf)
+    (hn : ∀ n, L.net = some n →
+      (n.hdrSrc.inBounds h ∧ n.hdrDst.inBounds h ∧ n.src.inBounds h ∧ n.dst.inBounds h) ∧
+      (h.has n.obj ∧ h.has n.src.buf ∧ h.has n.dst.buf)) :
+    LogInBounds ((verify asFixed L slack).log h) ((verify asFixed L slack).final h) := by
+  obtain ⟨hfa, hff⟩ := concat_capped_run L.contents L.payload slack h hp hc hb hcb hpb
+  have lc := Heap.read_length h L.contents.region hc
+  have lp := Heap.read_length h L.payload.region hb
+  have hx : ¬ L.contents.capToLen.len + L.payload.len ≤ L.contents.capToLen.cap := by
+    show ¬ L.contents.len + L.payload.len ≤ L.contents.len
+    omega
+  have hlog := goAppend_grow L.contents.capToLen L.payload slack h hp hx
+  obtain ⟨sh, pv⟩ := h
+  -- the final heap of every branch is the heap after the concatenation
+  have hfin : (verify asFixed L slack).final ⟨sh, pv⟩ =
+      ⟨sh, pv ++ [(Heap.mk sh pv).read L.contents.region ++ (Heap.mk sh pv).read L.payload.region ++ List.replicate slack 0]⟩ := by
+    simp only [verify, asFixed, Prog.final_bind, hfa, hff]
+    by_cases hu : L.kind.usesPseudo = true
+    · simp only [hu, if_true]
+      cases hnet : L.net with
+      | none => rfl
+      | some n =>
+        simp only [Prog.final_bind, Facts.pseudoWrites]
+        cases n.kind <;> simp [Prog.final, pseudoheader_false_run, Prog.run]
+    · simp [hu]
+  rw [hfin]
+  have hxlen : ((Heap.mk sh pv).read L.contents.region ++ (Heap.mk sh pv).read L.payload.region ++ List.replicate slack 0).length
+      = L.contents.len + L.payload.len + slack := by
+    simp only [List.length_append, List.length_replicate, lc, lp]; rfl
+  generalize (Heap.mk sh pv).read L.contents.region ++ (Heap.mk sh pv).read L.payload.region ++ List.replicate slack 0 = x at hxlen ⊢
+  have hfresh : ∀ off len, off + len ≤ L.contents.len + L.payload.len + slack →
+      (⟨.priv pv.length, off, len⟩ : Region).inBounds ⟨sh, pv ++ [x]⟩ := by
+    intro off len hle
+    unfold Region.inBounds
+    rw [Heap.size_ext_last, hxlen]; exact hle
+  have hcI : L.contents.region.inBounds ⟨sh, pv ++ [x]⟩ := inBounds_ext sh pv x _ hc hcb
+  have hpI : L.payload.region.inBounds ⟨sh, pv ++ [x]⟩ := inBounds_ext sh pv x _ hb hpb
+  -- log = concat log ++ rest
+  intro a ha r hr
+  simp only [verify, asFixed, Prog.log_bind, hfa, hff] at ha
+  rcases List.mem_append.1 ha with ha | ha
+  · -- the concatenation
+    simp only [concat] at ha
+    rw [hlog] at ha
+    have e1 : (Heap.mk sh (pv ++ [List.replicate (L.contents.len + L.payload.len + slack) 0])).read L.contents.region = (Heap.mk sh pv).read L.contents.region :=
+      Heap.read_ext sh pv _ _ hcb
+    simp only [List.mem_cons, List.not_mem_nil, or_false] at ha
+    rcases ha with rfl | rfl | rfl | rfl | rfl
+    · simp [Access.touches] at hr
+    · simp only [Access.touches, Option.some.injEq] at hr; subst hr; exact hcI
+    · simp only [Access.touches, Option.some.injEq] at hr; subst hr
+      apply hfresh
+      simp only [Heap.alloc, Slice.capToLen]
+      have : (⟨L.contents.buf, L.contents.off, L.contents.len, L.contents.len⟩ : Slice).region = L.contents.region := rfl
+      rw [this, e1, lc]; simp [Slice.region]; omega
+    · simp only [Access.touches, Option.some.injEq] at hr; subst hr; exact hpI
+    · simp only [Access.touches, Option.some.injEq] at hr; subst hr
+      apply hfresh
+      have hl : ∀ g : Heap, (g.read L.payload.region).length ≤ L.payload.len := by
+        intro g
+        unfold Heap.read Mem.read
+        cases L.payload.region.buf <;> simp [Slice.region, List.length_take] <;> omega
+      have := hl (((Heap.mk sh pv).alloc (L.contents.capToLen.len + L.payload.len + slack)).1.write (.priv pv.length) 0
+        (((Heap.mk sh pv).alloc (L.contents.capToLen.len + L.payload.len + slack)).1.read L.contents.capToLen.region))
+      simp only [Slice.capToLen] at this ⊢
+      omega
+  · -- pseudo-header loads and the final load of the concatenation
+    by_cases hu : L.kind.usesPseudo = true
+    · simp only [hu, if_true] at ha
+      cases hnet : L.net with
+      | none => simp [hnet] at ha
+      | some n =>
+        obtain ⟨⟨b1, b2, b3, b4⟩, ⟨o1, o2, o3⟩⟩ := hn n hnet
+        simp only [hnet, Prog.log_bind] at ha
+        have hps : ∀ g, (pseudoheader false n).log g = [.read n.hdrSrc, .read n.hdrDst, .read n.src, .read n.dst] := by
+          intro g; simp [Prog.log, pseudoheader_false_run]
+        have hpf : ∀ g, (pseudoheader false n).final g = g := by
+          intro g; simp [Prog.final, pseudoheader_false_run]
+        have hkind : Facts.pseudoWrites ⟨.capped, false, false⟩ n.kind = false := by cases n.kind <;> rfl
+        simp only [hkind, hps, hpf] at ha
+        simp only [Prog.log_read, Prog.log_done, List.mem_append, List.mem_cons, List.not_mem_nil, or_false] at ha
+        rcases ha with (rfl | rfl | rfl | rfl) | rfl
+        · simp only [Access.touches, Option.some.injEq] at hr; subst hr
+          exact inBounds_ext sh pv x _ b1 o1
+        · simp only [Access.touches, Option.some.injEq] at hr; subst hr
+          exact inBounds_ext sh pv x _ b2 o1
+        · simp only [Access.touches, Option.some.injEq] at hr; subst hr
+          exact inBounds_ext sh pv x _ b3 o2
+        · simp only [Access.touches, Option.some.injEq] at hr; subst hr
+          exact inBounds_ext sh pv x _ b4 o3
+        · simp only [Access.touches, Option.some.injEq] at hr; subst hr
+          apply hfresh; simp
+    · simp only [hu] at ha
+      simp only [Bool.false_eq_true, if_false, Prog.log_read, Prog.log_done, List.mem_cons, List.not_mem_nil, or_false] at ha
+      subst ha
+      simp only [Access.touches, Option.some.injEq] at hr; subst hr
+      apply hfresh; simp
+
 end Gp.Effects
